@@ -225,12 +225,7 @@ impl FragmentedMuxer {
             return false;
         }
 
-        let first_dts = self.samples[0].dts;
-        let last_dts = self.samples.last().unwrap().dts;
-        let duration_ticks = last_dts.saturating_sub(first_dts);
-        let duration_ms = duration_ticks * 1000 / self.config.timescale as u64;
-
-        duration_ms >= self.config.fragment_duration_ms as u64
+        self.current_fragment_duration_ms() >= self.config.fragment_duration_ms as u64
     }
 
     /// Get current fragment duration in milliseconds.
@@ -238,10 +233,16 @@ impl FragmentedMuxer {
         if self.samples.len() < 2 {
             return 0;
         }
+        if self.config.timescale == 0 {
+            // No time base: a duration cannot be expressed (and must not divide by zero).
+            return 0;
+        }
         let first_dts = self.samples[0].dts;
         let last_dts = self.samples.last().unwrap().dts;
         let duration_ticks = last_dts.saturating_sub(first_dts);
-        duration_ticks * 1000 / self.config.timescale as u64
+        // Widen before scaling: ticks * 1000 does not fit u64 for very long spans.
+        let duration_ms = u128::from(duration_ticks) * 1000 / u128::from(self.config.timescale);
+        u64::try_from(duration_ms).unwrap_or(u64::MAX)
     }
 }
 
